@@ -1560,6 +1560,7 @@ done:
         free(vardims);
         free(scaletypes);
         free(ptbuf);
+        ptbuf = NULL; /* static: the next call must allocate it again */
     }
 
     free(dims);
